@@ -237,7 +237,13 @@ def main():
 
     # ---- required observation classes
     missing = []
+    waived = set()
+    for flag, names in getattr(chk, "WAIVE_IF", {}).items():
+        if counters.get(flag, 0):
+            waived.update(names)        # an observation channel is unavailable on this tree: its minima are waived (and said so in the evidence)
     for name, minimum in getattr(chk, "REQUIRE", {}).items():
+        if name in waived:
+            continue
         if counters.get(name, 0) < minimum:
             missing.append(f"{name}={counters.get(name, 0)}<{minimum}")
     anchors = core.load_anchors(pid)
@@ -278,6 +284,7 @@ def main():
             "shards": nshards,
             "inconclusive": inconclusive,
             "known_findings_observed": sorted(seen_known),
+            "required_classes_waived": sorted(waived),
             "repo": core.REPO,
         },
         "assumptions": getattr(chk, "ASSUMPTIONS", []),
